@@ -17,6 +17,7 @@ fn main() {
     let mut tier = std::env::var("VERIF_TIER").unwrap_or_else(|_| "quick".into());
     let mut seed: u64 = std::env::var("VERIF_SEED").ok().and_then(|s| s.trim().parse::<i64>().ok()).map(|v| v as u64).unwrap_or(0);
     let mut replay: Option<String> = None;
+    let mut artifact: Option<String> = None;
     let mut job: Option<String> = None;
     let mut verif = "/verif".to_string();
     let mut i = 1;
@@ -36,6 +37,10 @@ fn main() {
             }
             "--job" => {
                 job = Some(args.get(i + 1).cloned().unwrap_or_else(|| usage()));
+                i += 2;
+            }
+            "--fuzz-artifact" => {
+                artifact = Some(args.get(i + 1).cloned().unwrap_or_else(|| usage()));
                 i += 2;
             }
             "--strict" => {
@@ -60,6 +65,9 @@ fn main() {
         eprintln!("unknown property {id}");
         std::process::exit(2);
     };
+    if let Some(path) = artifact {
+        std::process::exit(engine::fuzz_artifact(&p, &path, &verif));
+    }
     if let Some(path) = replay {
         std::process::exit(engine::replay_file(&p, &path));
     }
